@@ -119,6 +119,99 @@ theorem freeze_user (k : Nat) (c : UC) : freeze k (.user c) = evalAt k c := by
   obtain ⟨i, l⟩ := c
   cases l <;> simp [freeze, evalAt]
 
+/-! ### tracebacks -/
+theorem subMulti_of_perm : ∀ (xs ys zs : List Exc), ys.Perm (xs ++ zs) → subMulti xs ys = true
+  | [], _, _, _ => rfl
+  | x :: xs, ys, zs, h => by
+    have hx : x ∈ ys := h.mem_iff.mpr (by simp)
+    have h' : (ys.erase x).Perm (xs ++ zs) := by
+      have := h.erase x
+      simpa using this
+    simp only [subMulti, Bool.and_eq_true]
+    exact ⟨by simpa using hx, subMulti_of_perm xs _ zs h'⟩
+
+theorem tbOf_freeze (k : Nat) (x : DName × Content) : tbOf (x.1, freeze k x.2) = tbOf x := by
+  obtain ⟨n, c⟩ := x
+  cases c with
+  | user u => obtain ⟨i, l⟩ := u; cases l <;> rfl
+  | frozen i v => rfl
+  | tb e => rfl
+  | expectation m => rfl
+  | reason r => rfl
+
+theorem tbsIn_frozen (s : RS) (d : Details) : tbsIn (frozenDetails s d) = tbsIn d := by
+  rw [tbsIn_eq, tbsIn_eq, frozenDetails, List.filterMap_map]
+  congr 1
+  funext x
+  exact tbOf_freeze s.clock x
+
+theorem extraTbs_eq (p : Program) (st : Stage) :
+    ((match st.term with
+       | .expectFailure _ (some e) _ => [e]
+       | _ => []) ++
+      (if p.xfailDeco && st.id == p.body.id then
+         (match termObj st.term with
+          | some obj => if isSub obj.cls .exc then [obj] else []
+          | none => [])
+       else [])) = extraTbs p st := by
+  unfold extraTbs decoTb decoOf
+  congr 1
+  generalize st.term = t
+  cases t with
+  | expectFailure r eo x => cases eo <;> rfl
+  | ret => rfl
+  | raise1 e => rfl
+  | raiseMulti es me => rfl
+  | assertFail e ds => rfl
+  | fixtureFail ds e se => rfl
+
+theorem requiredTbs_eq (p : Program) (ff0 : Bool) (t : Trace) :
+    requiredTbs p ff0 t = (raisedAll p ff0 t).filter (fun e => needsTb e.cls) ++ (executed p t).flatMap (extraTbs p) := by
+  unfold requiredTbs
+  congr 2
+  funext st
+  exact extraTbs_eq p st
+
+theorem relatedTbs_eq (p : Program) (ff0 : Bool) (t : Trace) :
+    relatedTbs p ff0 t = raisedAll p ff0 t ++ (executed p t).flatMap (extraTbs p) := by
+  unfold relatedTbs
+  congr 2
+  funext st
+  exact extraTbs_eq p st
+
+/-- from the generated table: a class exempted from traceback reporting is not a failure / error class -/
+theorem needsTb_not_exempt (c : Cls) (h : needsTb c = true) : noTraceback c = false := by
+  rw [Bool.eq_false_iff]
+  intro hn
+  simp only [noTraceback, TTV.Generated.C01.noTracebackRows, List.any_cons, List.any_nil, clsOfRow, Bool.or_false,
+    Bool.or_eq_true, beq_iff_eq] at hn
+  rcases hn with hn | hn | hn <;> subst hn <;> simp [needsTb, isSub, Cls.ancestors] at h
+
+theorem tbs_required (excs X T : List Exc) (h : T.Perm (tbFilter excs ++ X)) :
+    subMulti (excs.filter (fun e => needsTb e.cls) ++ X) T = true := by
+  apply subMulti_of_perm _ _ ((tbFilter excs).filter fun e => !needsTb e.cls)
+  have e1 : (tbFilter excs).filter (fun e => needsTb e.cls) = excs.filter (fun e => needsTb e.cls) := by
+    simp only [tbFilter, List.filter_filter]
+    apply List.filter_congr
+    intro x _
+    cases hx : needsTb x.cls
+    · rfl
+    · simp [needsTb_not_exempt x.cls hx]
+  have h2 := (List.filter_append_perm (fun e => needsTb e.cls) (tbFilter excs)).symm
+  rw [e1] at h2
+  refine h.trans ((h2.append_right X).trans ?_)
+  simp only [List.append_assoc]
+  exact List.Perm.append_left _ List.perm_append_comm
+
+theorem tbs_related (excs X T : List Exc) (h : T.Perm (tbFilter excs ++ X)) :
+    subMulti T (excs ++ X) = true := by
+  apply subMulti_of_perm _ _ (excs.filter fun e => !(!noTraceback e.cls))
+  have h2 := (List.filter_append_perm (fun e => !noTraceback e.cls) excs).symm
+  refine (h2.append_right X).trans ?_
+  refine List.Perm.trans ?_ (h.symm.append_right _)
+  simp only [tbFilter, List.append_assoc]
+  exact List.Perm.append_left _ List.perm_append_comm
+
 /-! ## per-run clauses on the model's trace -/
 section perRun
 variable (p : Program) (ff0 : Bool) (hwf : wf p = true)
@@ -246,6 +339,26 @@ theorem clause_userDetails : cUserDetails p ff0 (runOnce p ff0) = true := by
       have hl := lastAdd_of_idx A n c i hget (Bool.not_eq_true _ ▸ hlater)
       rw [find_frozen, hJ.ud n c hl]
       simp [freeze_user]
+
+theorem clause_tracebacks (hcl : p.skipDeco = none → (runCore p ff0).1.clobbered = false) :
+    cTracebacks p ff0 (runOnce p ff0) = true := by
+  simp only [cTracebacks, Bool.or_eq_true]
+  by_cases hsd : showsDetails p.flavour = true
+  case neg => left; left; simpa using hsd
+  cases hskip : p.skipDeco with
+  | some r => left; right; rfl
+  | none =>
+    right
+    obtain ⟨o, r, sel, _, hshape⟩ := runOnce_shape_d p ff0 hwf hskip
+    have cf := runCore_facts p ff0 hwf hskip
+    obtain ⟨T, A, U, hD⟩ := runCore_invD p ff0 hwf
+    have hJ := hD.js.final (handlers p) sel
+    have hT := hJ.tbs (hcl hskip)
+    rw [hshape]
+    simp only [detailsOf_shape _ _ cf.logPure, requiredTbs_eq, relatedTbs_eq,
+      (reads_of p ff0 hwf hskip _ _ _ _ _ _).executed, (reads_of p ff0 hwf hskip _ _ _ _ _ _).raised,
+      visibleDetails, hsd, if_true, tbsIn_frozen, hT, Bool.and_eq_true]
+    exact ⟨tbs_required _ _ _ hD.tperm, tbs_related _ _ _ hD.tperm⟩
 
 end perRun
 
